@@ -844,6 +844,9 @@ const BASE_PAIRS: usize = 6;
 /// roots: 0 = atom B, 1..=5 = p0..p4, 6 = e1, 7 = e2, 8 = e3
 const NROOTS: usize = 9;
 const OP_ALLOC: u8 = 18;
+/// 19 + r: TreeCache::insert(root r, reference hash of root r) — the public priming call with the
+/// correct hash (the caller's obligation); pair roots only
+const OP_INSERT: u8 = 19;
 
 fn root_pair_index(r: usize) -> Option<usize> {
     match r {
@@ -861,6 +864,8 @@ fn op_name(op: u8) -> String {
     };
     if op == OP_ALLOC {
         "alloc".into()
+    } else if op >= OP_INSERT {
+        format!("insert({}, its hash)", root((op - OP_INSERT) as usize))
     } else if (op as usize) < NROOTS {
         format!("visit_tree({})", root(op as usize))
     } else {
@@ -984,6 +989,15 @@ fn exec_history(hist: &[u8], dr: &DagRef) -> Exec {
         if op == OP_ALLOC {
             w.alloc();
             bucket = "bfs/alloc";
+        } else if op >= OP_INSERT {
+            let r = (op - OP_INSERT) as usize;
+            let n = w.root(r).expect("root not allocated");
+            let want = dr.pair_h[root_pair_index(r).expect("insert on the atom root")];
+            if let Err(p) = catch(|| cache.insert(n, &TreeHash::new(want))) {
+                misses.push(Miss { routine: "TreeCache::insert", kind: "panic", detail: format!("step {step}: {} panicked: {p}", op_name(op)) });
+                break;
+            }
+            bucket = "bfs/insert";
         } else if (op as usize) < NROOTS {
             let n = w.root(op as usize).expect("root not allocated");
             if let Err(p) = catch(|| cache.visit_tree(&w.a, n)) {
@@ -1036,7 +1050,7 @@ fn exec_history(hist: &[u8], dr: &DagRef) -> Exec {
     Exec { key, bucket, misses, rendered }
 }
 
-fn alphabet(extras: usize, max_extras: usize) -> Vec<u8> {
+fn alphabet(extras: usize, max_extras: usize, inserts: usize, max_inserts: usize) -> Vec<u8> {
     let mut ops = Vec::new();
     let roots = 6 + extras;
     for r in 0..roots {
@@ -1048,6 +1062,12 @@ fn alphabet(extras: usize, max_extras: usize) -> Vec<u8> {
     if extras < max_extras {
         ops.push(OP_ALLOC);
     }
+    // every insert appends a memoised hash, so the state graph is only finite with a bound on them
+    if inserts < max_inserts {
+        for r in 1..roots {
+            ops.push(OP_INSERT + r as u8);
+        }
+    }
     ops
 }
 
@@ -1055,7 +1075,7 @@ struct St {
     hist: Vec<u8>,
 }
 
-fn part_bfs(rep: &Report, depth: usize, max_states: usize, max_extras: usize) {
+fn part_bfs(rep: &Report, depth: usize, max_states: usize, max_extras: usize, max_inserts: usize) {
     let dr = dag_reference();
     let init = exec_history(&[], &dr);
     let res = bfs::run(
@@ -1066,7 +1086,8 @@ fn part_bfs(rep: &Report, depth: usize, max_states: usize, max_extras: usize) {
             let mut acc = Acc::default();
             let mut out = Vec::new();
             let extras = s.hist.iter().filter(|o| **o == OP_ALLOC).count();
-            for op in alphabet(extras, max_extras) {
+            let inserts = s.hist.iter().filter(|o| **o >= OP_INSERT).count();
+            for op in alphabet(extras, max_extras, inserts, max_inserts) {
                 let mut hist = s.hist.clone();
                 hist.push(op);
                 acc.evals += 1;
@@ -1549,10 +1570,11 @@ fn run(rep: &Report) {
     let blocks: Vec<(usize, usize, usize)> = t.pick(vec![(1, 2, 3), (2, 2, 3), (3, 2, 3)], vec![(1, 2, 3), (2, 2, 4), (3, 2, 4), (4, 2, 2)]);
     let bfs_depth = std::env::var("C17_DEPTH").ok().and_then(|s| s.parse().ok()).unwrap_or(64);
     let bfs_states = t.pick(2_000_000, 12_000_000);
+    let max_inserts: usize = t.pick(1, 2);
     let max_extras: usize = std::env::var("C17_EXTRAS").ok().and_then(|s| s.parse().ok()).unwrap_or(t.pick(2, 3));
 
     rep.set_rule(&format!(
-        "E: the 24 precomputed constants; every leaf of a {}-element alphabet (contents nil, 00..1a, 7f, 80, ff, 2..5-byte integers around the small-atom limit, strings of 31..1000 bytes; constructors nil/one/new_atom/new_small_number/new_number/new_substr/new_concat, i.e. both the small-integer and the heap representation of the same bytes) as a root and in every ordered pair (x . y); every small-integer atom in [0, {small_end}); every pair table p_i = (c_l . c_r), c in leaves + earlier pairs (all DAGs incl. unshared trees, duplicated equal pairs and unreachable pairs) for (pairs, leaves, serialisations) in {tables:?}, root = last pair; 10^5-deep and 10^5-long lists, perfect DAGs of depth 17/{}, a Fibonacci DAG; currying of every (program, args) over {} values for 0..4 arguments and over 4 values for 5..6; for (pairs, leaves, spends) in {blocks:?} every table x every list of that many spends whose puzzle reveals (f (q . (() . p_i))) carry the table's pairs, as a plain and as a back-reference generator, through run_block_generator (hashes computed by the CLVM ROM), run_block_generator2, additions_and_removals, get_coinspends_for_trusted_block and get_coinspends_with_conditions_for_trusted_block (one TreeCache across all puzzle reveals; puzzle hash and coin id of every spend). H: for (pairs, leaves) in {graphs:?} the COMPLETE state graph of every table under visit_tree(p_i)/tree_hash_cached(p_i) on one shared TreeCache (BFS until no new cache state appears: histories of any length); for (pairs, leaves, length) in {seqs:?} every table x every operation sequence of that length; the complete state graph (depth bound {bfs_depth}, fixpoint reported) of visit_tree/tree_hash_cached on the roots {{atom, p0..p4, e1..e{max_extras}}} of a fixed DAG plus 'allocate the next pair e_j' (pairs created after the cache was used; p5 never visited directly). States are deduplicated on (pairs allocated, pairs[], hashes[]) read through hook H2 (exact, no hashing). Oracle on every transition: returned hash = definition, and TreeCache::get of every pair is None or the definition's hash. distinct_nontrivial counts leaves, big structures, curry cases and fixed-DAG states only (tables, table-graph states and sequences are counted in the extras)",
+        "E: the 24 precomputed constants; every leaf of a {}-element alphabet (contents nil, 00..1a, 7f, 80, ff, 2..5-byte integers around the small-atom limit, strings of 31..1000 bytes; constructors nil/one/new_atom/new_small_number/new_number/new_substr/new_concat, i.e. both the small-integer and the heap representation of the same bytes) as a root and in every ordered pair (x . y); every small-integer atom in [0, {small_end}); every pair table p_i = (c_l . c_r), c in leaves + earlier pairs (all DAGs incl. unshared trees, duplicated equal pairs and unreachable pairs) for (pairs, leaves, serialisations) in {tables:?}, root = last pair; 10^5-deep and 10^5-long lists, perfect DAGs of depth 17/{}, a Fibonacci DAG; currying of every (program, args) over {} values for 0..4 arguments and over 4 values for 5..6; for (pairs, leaves, spends) in {blocks:?} every table x every list of that many spends whose puzzle reveals (f (q . (() . p_i))) carry the table's pairs, as a plain and as a back-reference generator, through run_block_generator (hashes computed by the CLVM ROM), run_block_generator2, additions_and_removals, get_coinspends_for_trusted_block and get_coinspends_with_conditions_for_trusted_block (one TreeCache across all puzzle reveals; puzzle hash and coin id of every spend). H: for (pairs, leaves) in {graphs:?} the COMPLETE state graph of every table under visit_tree(p_i)/tree_hash_cached(p_i) on one shared TreeCache (BFS until no new cache state appears: histories of any length); for (pairs, leaves, length) in {seqs:?} every table x every operation sequence of that length; the complete state graph (depth bound {bfs_depth}, fixpoint reported) of visit_tree/tree_hash_cached on the roots {{atom, p0..p4, e1..e{max_extras}}} of a fixed DAG plus 'allocate the next pair e_j' (pairs created after the cache was used; p5 never visited directly) plus at most {max_inserts} direct TreeCache::insert(root, definition's hash) priming call(s) per history. States are deduplicated on (pairs allocated, pairs[], hashes[]) read through hook H2 (exact, no hashing). Oracle on every transition: returned hash = definition, and TreeCache::get of every pair is None or the definition's hash. distinct_nontrivial counts leaves, big structures, curry cases and fixed-DAG states only (tables, table-graph states and sequences are counted in the extras)",
         leaf_alphabet().len(),
         t.pick(12, 20),
         curry_values(t).len(),
@@ -1603,7 +1625,7 @@ fn run(rep: &Report) {
     }
     rep.extra("sequences_total", json!(n_seq));
     rep.traces.fetch_add(n_seq, Ordering::Relaxed);
-    part_bfs(rep, bfs_depth, bfs_states, max_extras);
+    part_bfs(rep, bfs_depth, bfs_states, max_extras, max_inserts);
     lap("fixed-DAG BFS");
 }
 
